@@ -155,6 +155,36 @@ theorem draw_cache (count : Option Nat) (loops : Int) (cache : CacheArg) :
   · intro h; cases count <;> simp [drawCache, h, cachedDecision]
   · intro h; simp [drawCache, h]
 
+/-- DRAW NEVER RE-RENDERS. Through the public drawing path (`draw()` → `_animate_`, which builds
+    its iterator with `False if loops == 1 else cache`): for every renderable, every loop count
+    other than 1 — **negative = infinite included** — and every `cache` value that enables caching
+    for the source (`True`, or an integer ≥ the definite frame count), whatever `_animate_` (or
+    anything else that changes no size/duration/args: `history m` for every `m` in particular) does
+    with the iterator, no frame number is handed to `_render_` twice. -/
+theorem draw_no_rerender (R : Renderable ρ O) (i : Init) (r0 : ρ) (s0 : St ρ O) (n : Nat)
+    (hn : i.count = some n) (hl : i.loops ≠ 1)
+    (hen : i.cache = .flag true ∨ ∃ c, i.cache = .limit c ∧ (n : Int) ≤ c)
+    (h0 : init (Draw.initOf i) r0 = .ok s0) (ops : List Op) (hs : ∀ op ∈ ops, NoSettingChange op) :
+    ∀ k : Int, Draw.renderCount (run R s0 ops).1 k ≤ 1 := by
+  have hdc : drawCache i.loops i.cache = i.cache := (draw_cache i.count i.loops i.cache).2 hl
+  have hc : cachedDecision (Draw.initOf i).count (Draw.initOf i).cache = true := by
+    simp only [Draw.initOf, hdc]
+    exact (cached_decision i.count i.cache).mpr ⟨n, hn, hen⟩
+  obtain ⟨new, h1, h2⟩ := render_calls_in_stretch R (Draw.initOf i) r0 s0 h0 hc [] ops hs
+  obtain ⟨_, _, _, _, hs0⟩ := init_shape (Draw.initOf i) r0 s0 h0
+  have hcalls : s0.calls = [] := by rw [hs0]
+  intro k
+  have : (run R s0 ops).1.calls = new := by
+    have := h1; simp only [List.nil_append, run, hcalls, List.append_nil] at this; exact this
+  simp only [Draw.renderCount, this]
+  exact h2 k
+
+/-- the history `_animate_` itself produces changes no setting -/
+theorem draw_history_quiet (m : Nat) : ∀ op ∈ Draw.history m, NoSettingChange op := by
+  intro op hop
+  simp only [Draw.history, List.mem_cons, List.mem_replicate] at hop
+  rcases hop with rfl | rfl | ⟨_, rfl⟩ <;> simp [NoSettingChange]
+
 end render_iterator
 
 section image_iterator
@@ -208,6 +238,15 @@ theorem uncached_rerenders_counterexample :
   ⟨_, rfl, by decide⟩
 
 /-! non-vacuity -/
+
+/-- `draw_no_rerender` for the default of `draw()`: infinite looping, `cache=100`, 3 frames, 7 further
+    frames drawn (more than two loops) — every frame requested exactly once -/
+example : ∃ s0 : St Nat TOut,
+    init (Draw.initOf ⟨some 3, -1, .limit 100, .exact 0 0 0 0 0, none, ⟨2, 1⟩, .ms 7, 0, ⟨80, 30⟩⟩) 0 = .ok s0 ∧
+    (List.range 3).map (fun (k : Nat) => Draw.renderCount (run (testR ⟨some 3, 0, none, none⟩) s0 (Draw.history 7)).1 (Int.ofNat k))
+      = [1, 1, 1] :=
+  ⟨_, rfl, by decide⟩
+
 
 /-- `render_calls_in_stretch` is about runs that do render: cached, two loops over three frames,
     `next` six times with a `set_padding` and a seek in between — six frames served, three requests -/
